@@ -819,6 +819,9 @@ func (c *FCtx) phiTerm(p *ssa.Phi) *Term {
 	if same && first != nil {
 		return first
 	}
+	if t := c.boolPhi(p); t != nil {
+		return t
+	}
 	// append-phi in a loop header
 	l := c.A.Loops(c.Fn).ByHeader[p.Block()]
 	if l != nil && l.Coll != nil && l.Kind != "other" {
@@ -845,6 +848,57 @@ func (c *FCtx) phiTerm(p *ssa.Phi) *Term {
 		}
 	}
 	return T("phi", funcID(c.Fn)+"#"+p.Name())
+}
+
+// boolPhi recognises the materialised short-circuit forms  a && b && ...  /  a || b || ...
+func (c *FCtx) boolPhi(p *ssa.Phi) *Term {
+	if !isBoolType(p.Type()) || len(p.Edges) < 2 {
+		return nil
+	}
+	var k *bool
+	var rest ssa.Value
+	var conds []*Term
+	for i, e := range p.Edges {
+		pred := p.Block().Preds[i]
+		if ce, ok := e.(*ssa.Const); ok && ce.Value != nil {
+			v := constTerm(ce).Key() == tTrue.Key()
+			if k != nil && *k != v {
+				return nil
+			}
+			k = &v
+			ifi, ok := pred.Instrs[len(pred.Instrs)-1].(*ssa.If)
+			if !ok {
+				return nil
+			}
+			ct := c.Term(ifi.Cond)
+			if pred.Succs[1] == p.Block() && pred.Succs[0] != p.Block() {
+				ct = Not(ct) // edge taken when the condition is false
+			} else if !(pred.Succs[0] == p.Block() && pred.Succs[1] != p.Block()) {
+				return nil
+			}
+			conds = append(conds, ct)
+			continue
+		}
+		if rest != nil {
+			return nil
+		}
+		rest = e
+	}
+	if k == nil || rest == nil {
+		return nil
+	}
+	rt := c.Term(rest)
+	if !*k {
+		// false whenever one of the edge conditions holds: and(!e1, !e2, ..., rest)
+		args := make([]*Term, 0, len(conds)+1)
+		for _, ct := range conds {
+			args = append(args, Not(ct))
+		}
+		args = append(args, rt)
+		return T("and", "", args...)
+	}
+	args := append(append([]*Term{}, conds...), rt)
+	return T("or", "", args...)
 }
 
 // appendPhi recognises  s = phi(init, append(s, x))  possibly through an inner conditional phi.
